@@ -1,17 +1,34 @@
 // C04 — Async-formatted message equals formatting the arguments at the call site; deep copy; size accounting.
 //
 // In-process, single thread: the harness thread is BOTH the logging thread and the (manual) backend thread.
-// Per case: 1..3 statements, each = (shape from the typed catalog, generated values, generated runtime format
-// string). For every statement, in this order:
+// Per case: 1..3 statements, each = (shape from the typed catalog, generated runtime format string, generated
+// values). For every statement, in this order:
 //   1. expected = sanitize(fmtquill::vformat(fmt, original objects))            (call-site oracle)
 //   2. direct codec round trip in a canary-guarded buffer: size pass == encode advance == decode advance, and the
 //      decoded argument store formats to `expected`                               (size accounting, 2nd way)
-//   3. logger->log_statement<false,false>(...) with the runtime MacroMetadata     (quill's own assert = 1st way)
+//   3. logger->log_statement<false,false>(...) with the runtime MacroMetadata     (quill's own assert = 1st way);
+//      one statement in five uses log_statement<false,true> with a dynamic level, which travels behind the arguments
 //   4. every argument object is overwritten / cleared / destroyed                 (deep copy)
-// then the backend is polled until empty and the messages handed to the recording sink must equal the expected
-// ones, in order (a size mismatch would desynchronise the following records: 3rd way).
+// then the backend is polled until empty and the messages (and levels) handed to the recording sink must equal the
+// expected ones, in order (a size mismatch would desynchronise the following records: 3rd way).
 //
-// Catalog: fmtcat_shapes_1.cpp ... fmtcat_shapes_8.cpp (Stmt<Slot...> instantiations), shared header fmtcat.h.
+// Catalog: fmtcat_shapes_1.cpp ... fmtcat_shapes_8.cpp (Stmt<Slot...> instantiations; all eight link into the one
+// binary), shared headers fmtcat.h (slots, Val<T>, user types) and fmtcat_valgen.h (value generators).
+//
+// Params: exclude=<classes>  known-finding classes avoided by construction
+//                            (fmtcat.direct_codec_nested_quoted, fmtcat.positional_format_misread_as_named)
+//         shape=<name>       force one shape (list_shapes=1 prints them)
+//         fork=1             fork-per-case (also FMTCAT_FORK=1): slow, but the driver shrinks crashing cases
+//         reexec_max=<n>     an in-process abort within the first n cases (default 10000) re-runs the same command
+//                            fork-per-case to shrink it; later aborts leave the unshrunk replay and exit 1
+//
+// Oracle notes (soundness): sanitisation is applied exactly when an argument's decoded type sets
+// DynamicFormatArgStore's string-related flag (strings, char, every custom-formatted type), mirrored per slot in
+// SlotInfo::string_related and cross-checked (counter string_related_flag_differs_from_model). The backend drops ONE
+// trailing '\n' of a message before the sinks see it (BackendWorker, "if the log_message ends with \n we should
+// exclude it"): the comparison does the same (label trailing_newline). unordered_* containers are compared as
+// multisets of call-site element texts (any permutation joined by ", "). Null C strings only as top-level arguments
+// (expected ""), StringRef targets stay untouched until the case ends.
 #include "fmtcat.h"
 
 #include "../engine/driver_common.h" // write_replay (crash guard only)
@@ -39,12 +56,13 @@ Params g_params;
 quill::ManualBackendWorker* g_worker = nullptr;
 quill::Logger* g_logger = nullptr;
 std::vector<std::string> g_recorded; // log_message of every write_log since the last drain
+std::vector<quill::LogLevel> g_recorded_level;
 std::vector<std::string> g_notes;    // error_notifier messages since the last drain
 std::vector<ShapeEntry> g_shapes;
 unsigned g_total_weight = 0;
 long g_forced_shape = -1;
 size_t g_fallback_shape = 0;
-bool g_excl_direct_nested = false;
+bool g_excl_brace_adjacent = false;
 quill::detail::SizeCacheVector g_cache; // persistent like the per-thread cache of ThreadContext
 quill::DynamicFormatArgStore g_store;
 std::vector<unsigned char> g_rt;
@@ -67,11 +85,12 @@ class RecordingSink final : public quill::Sink
 {
 public:
   void write_log(quill::MacroMetadata const*, uint64_t, std::string_view, std::string_view, std::string const&,
-                 std::string_view, quill::LogLevel, std::string_view, std::string_view,
+                 std::string_view, quill::LogLevel level, std::string_view, std::string_view,
                  std::vector<std::pair<std::string, std::string>> const*, std::string_view log_message,
                  std::string_view) override
   {
     g_recorded.emplace_back(log_message);
+    g_recorded_level.push_back(level);
   }
   void flush_sink() override {}
 };
@@ -123,13 +142,16 @@ std::deque<Pending> g_pending;
 
 // ---------------------------------------------------------------------------------------------------------------------
 // crash guard: an abort (quill assert, sanitizer report) inside an in-process case would otherwise end the driver
-// with an exit code the check script reads as an infrastructure failure. Turn it into an (unshrunk) failing case:
-// write the replay file of the CURRENT choice vector and exit 1. FMTCAT_FORK=1 switches the harness to
-// fork-per-case instead, where the driver itself handles dead children (and can shrink them).
+// with an exit code the check script reads as an infrastructure failure. Turn it into a failing case: write the
+// replay file of the CURRENT choice vector, then (early in a run) re-execute the same command fork-per-case so that
+// the driver meets the same case again in a child and shrinks it; otherwise exit 1 with the unshrunk replay.
 // ---------------------------------------------------------------------------------------------------------------------
 bool g_fork_mode = false;
 bool g_replay_mode = false;
 std::string g_replay_out;
+std::vector<std::string> g_argv;
+long g_case_counter = 0;
+long g_reexec_max_cases = 10000;
 uint32_t const* g_cur_choices = nullptr;
 size_t g_cur_n = 0;
 Report* g_cur_report = nullptr;
@@ -151,7 +173,47 @@ void on_death()
   std::printf("%s", r.render.c_str());
   std::printf(g_replay_mode ? "REPLAY-FAIL: %s\n" : "CASE-ABORTED: %s\n", r.message.c_str());
   std::fflush(stdout);
+  if (!g_replay_mode && !g_replay_out.empty() && !g_argv.empty() && g_case_counter <= g_reexec_max_cases)
+  {
+    // Second attempt, fork-per-case: the driver regenerates the same cases from the same seed, the crashing one
+    // now dies in a child and is shrunk by the driver. The unshrunk replay is kept aside as the fallback (see
+    // reexec_epilogue) so that the failure cannot get lost.
+    std::string const aside = g_replay_out + ".unshrunk";
+    std::rename(g_replay_out.c_str(), aside.c_str());
+    setenv("FMTCAT_REEXEC", "1", 1);
+    std::vector<char*> av;
+    for (auto& a : g_argv) av.push_back(&a[0]);
+    static char p1[] = "--param", p2[] = "fork=1";
+    av.push_back(p1);
+    av.push_back(p2);
+    av.push_back(nullptr);
+    sigset_t all;
+    sigfillset(&all);
+    sigprocmask(SIG_UNBLOCK, &all, nullptr);
+    std::printf("fmtcat: re-running fork-per-case to shrink the aborting case\n");
+    std::fflush(stdout);
+    execv("/proc/self/exe", av.data());
+    std::rename(aside.c_str(), g_replay_out.c_str()); // exec failed
+  }
   _exit(1);
+}
+
+// runs at exit of the re-executed (fork-per-case) process
+void reexec_epilogue()
+{
+  std::string const aside = g_replay_out + ".unshrunk";
+  if (access(g_replay_out.c_str(), F_OK) == 0)
+  {
+    unlink(aside.c_str()); // the driver found the failure again and left the shrunk replay
+    return;
+  }
+  if (access(aside.c_str(), F_OK) == 0)
+  {
+    std::rename(aside.c_str(), g_replay_out.c_str());
+    std::printf("fmtcat: the in-process abort did not reproduce fork-per-case; the unshrunk replay is kept\n");
+    std::fflush(stdout);
+    _exit(1);
+  }
 }
 
 void on_sigabrt(int)
@@ -165,7 +227,8 @@ void read_cmdline()
 {
   std::ifstream f("/proc/self/cmdline", std::ios::binary);
   std::string all((std::istreambuf_iterator<char>(f)), std::istreambuf_iterator<char>());
-  std::vector<std::string> av;
+  std::vector<std::string>& av = g_argv;
+  av.clear();
   size_t pos = 0;
   while (pos < all.size())
   {
@@ -174,10 +237,13 @@ void read_cmdline()
     av.emplace_back(all.substr(pos, e - pos));
     pos = e + 1;
   }
+  char const* fe = std::getenv("FMTCAT_FORK");
+  g_fork_mode = fe != nullptr && fe[0] != '\0' && fe[0] != '0';
   for (size_t k = 1; k < av.size(); ++k)
   {
     if (av[k] == "--replay-out" && k + 1 < av.size()) g_replay_out = av[k + 1];
     if (av[k] == "--replay" && k + 1 < av.size()) g_replay_mode = true;
+    if (av[k] == "--param" && k + 1 < av.size() && (av[k + 1] == "fork=1" || av[k + 1] == "fork")) g_fork_mode = true;
   }
 }
 
@@ -288,25 +354,40 @@ std::string gen_spec(Choices& c, Cat cat)
 // scanner (C19's business; its handling of "}}" directly after a placeholder is finding F4) never sees
 // "{<letter>" and never a "}}" glued to a placeholder.
 struct Lit { char const* in_fmt; char const* out; };
-Lit gen_literal(Choices& c)
+Lit gen_literal(Choices& c, Report& r)
 {
   static Lit const lits[] = {{"", ""},         {" ", " "},       {", ", ", "},       {"x=", "x="},   {" [", " ["},
                              {"] ", "] "},     {": ", ": "},     {"{{ ", "{ "},      {" }}", " }"},  {"%", "%"},
                              {"\n", "\n"},     {" -> ", " -> "}, {"|", "|"},         {"value ", "value "},
                              {"\"", "\""},     {"\\", "\\"},     {"%s %d", "%s %d"}, {"#", "#"},     {"100% ", "100% "},
                              {"a", "a"},       {"\t", "\t"},     {"{{ }} ", "{ } "}, {"line1\nline2 ", "line1\nline2 "}};
-  return lits[c.pick(sizeof lits / sizeof *lits)];
+  // known-finding class fmtcat.positional_format_misread_as_named: UNpadded brace escapes, which may end up glued
+  // to a placeholder ("{}}}", "{}{{a}}"): MacroMetadata::_contains_named_args loses sync there and takes the "{a" of
+  // an escaped "{{a}}" for a named argument. Excluded by construction => the padded twins (never "{<letter>").
+  static Lit const glued[] = {{"}}", "}"}, {"{{", "{"}, {"{{a}}", "{a}"}};
+  static Lit const padded[] = {{" }}", " }"}, {"{{ ", "{ "}, {"{{ a }}", "{ a }"}};
+  size_t const nl = sizeof lits / sizeof *lits;
+  size_t const k = c.pick(static_cast<uint32_t>(nl + 3));
+  if (k < nl) return lits[k];
+  if (g_excl_brace_adjacent)
+  {
+    r.count("excluded.fmtcat.positional_format_misread_as_named");
+    return padded[k - nl];
+  }
+  r.label("known_class.fmtcat.positional_format_misread_as_named");
+  return glued[k - nl];
 }
 
-void build_format(Choices& c, SlotInfo const* info, size_t n, std::string& fmt, std::vector<Tok>& toks,
+void build_format(Choices& c, Report& r, SlotInfo const* info, size_t n, std::string& fmt, std::vector<Tok>& toks,
                   bool& manual, bool& any_spec)
 {
   fmt.clear();
   toks.clear();
   any_spec = false;
-  manual = c.weighted({3, 1}) == 1;
+  manual = n > 0 && c.weighted({3, 1}) == 1;
   std::vector<size_t> idx;
-  if (!manual)
+  if (n == 0) { /* literal text only */ }
+  else if (!manual)
   {
     size_t k = n;
     if (n > 1 && c.pick(8) == 7) k = c.pick(static_cast<uint32_t>(n)); // trailing arguments not referenced
@@ -321,7 +402,7 @@ void build_format(Choices& c, SlotInfo const* info, size_t n, std::string& fmt, 
   }
   auto add_lit = [&]()
   {
-    Lit l = gen_literal(c);
+    Lit l = gen_literal(c, r);
     if (l.in_fmt[0] == '\0') return;
     fmt += l.in_fmt;
     Tok t;
@@ -452,6 +533,10 @@ void drain(Report& r)
     if (!match(p, g_recorded[k], true, why))
       r.fail("backend message differs from call-site formatting: shape " + p.shape + ", fmt \"" + esc(p.meta->fmt) +
              "\": " + why);
+    if (g_recorded_level[k] != p.level)
+      r.fail("sink saw log level " + std::to_string(static_cast<int>(g_recorded_level[k])) + " for a statement logged with " +
+             (p.dynamic_level ? "dynamic " : "static ") + "level " + std::to_string(static_cast<int>(p.level)) + " (shape " +
+             p.shape + ")");
     ++k;
   }
   if (!r.failed && k != g_recorded.size())
@@ -464,6 +549,7 @@ void drain(Report& r)
   }
   g_pending.clear();
   g_recorded.clear();
+  g_recorded_level.clear();
   g_notes.clear();
 }
 
@@ -478,6 +564,7 @@ std::string probe_message(char const* fmt, A const&... a)
   g_worker->poll();
   std::string m = g_recorded.empty() ? std::string{"<nothing>"} : g_recorded.front();
   g_recorded.clear();
+  g_recorded_level.clear();
   g_notes.clear();
   return m;
 }
@@ -784,7 +871,17 @@ Prepared* Ctx::plan(SlotInfo const* info, size_t n)
   p.shape = shape;
   p.nargs = n;
   p.uelems.resize(n);
-  build_format(c, info, n, m.fmt, p.toks, p.manual, p.any_spec);
+  build_format(c, r, info, n, m.fmt, p.toks, p.manual, p.any_spec);
+  if (c.pick(5) == 4)
+  {
+    // the dynamic level is appended to the record after the arguments
+    static quill::LogLevel const lv[] = {quill::LogLevel::TraceL3, quill::LogLevel::TraceL2, quill::LogLevel::TraceL1,
+                                         quill::LogLevel::Debug,   quill::LogLevel::Info,    quill::LogLevel::Notice,
+                                         quill::LogLevel::Warning, quill::LogLevel::Error,   quill::LogLevel::Critical};
+    p.dynamic_level = true;
+    p.level = lv[c.pick(sizeof lv / sizeof *lv)];
+    r.label("dynamic_log_level");
+  }
   return &p;
 }
 
@@ -817,13 +914,14 @@ bool Ctx::prepare(Prepared* pp, SlotInfo const* info, size_t n, fmtquill::format
     raw = fmtquill::vformat(m.fmt, args);
   }
   auto* md = new (static_cast<void*>(m.md)) quill::MacroMetadata(
-    "fmtcat.cpp:1", "run_case", m.fmt.c_str(), nullptr, quill::LogLevel::Info, quill::MacroMetadata::Event::Log);
+    "fmtcat.cpp:1", "run_case", m.fmt.c_str(), nullptr, p.dynamic_level ? quill::LogLevel::Dynamic : quill::LogLevel::Info,
+    quill::MacroMetadata::Event::Log);
   p.md = md;
   if (md->has_named_args())
   {
-    // cannot happen by construction (no "{<letter>" is ever produced); named arguments are C19's domain
-    r.count("harness.named_args_format_skipped");
-    return false;
+    // positional format that quill's scanner takes for a named-argument one: only reachable through the glued brace
+    // escapes of the known-finding class above (logged all the same: the oracle decides)
+    r.label("positional_format_classified_as_named");
   }
 
   bool any_varlen = false;
@@ -886,6 +984,8 @@ std::byte* Ctx::rt_buffer(size_t sz)
   if (g_rt.size() < need) g_rt.resize(need * 2);
   unsigned char* b = g_rt.data() + kGuard + off;
   std::memset(b - kGuard, kCanary, sz + 2 * kGuard);
+  // NUL sentinels behind the trailing guard: a decoder that misses a terminator stops here instead of running away
+  std::memset(b + sz + kGuard, 0, 32);
   return reinterpret_cast<std::byte*>(b);
 }
 
@@ -954,8 +1054,6 @@ bool Ctx::rt_after_decode(Prepared* pp, std::byte* b, std::byte* rp, size_t sz)
   return ok;
 }
 
-void Ctx::before_log(Prepared*) {}
-
 void Ctx::after_log(Prepared* pp, bool accepted)
 {
   auto& p = *static_cast<Pending*>(pp);
@@ -977,21 +1075,20 @@ using namespace fmtcat;
 
 HarnessInfo harness_info()
 {
-  char const* f = std::getenv("FMTCAT_FORK");
-  bool fork_mode = f != nullptr && f[0] != '\0' && f[0] != '0';
-  return {"fmtcat", fork_mode, 300, 20000};
+  // fork-per-case on request (FMTCAT_FORK=1 or "--param fork=1"): slower, but a crashing case (quill assert,
+  // sanitizer report) is then handled and SHRUNK by the driver. harness_info() has no Params, hence the cmdline.
+  read_cmdline();
+  return {"fmtcat", g_fork_mode, 300, 20000};
 }
 
 void harness_init(Params const& p)
 {
   g_params = p;
-  g_excl_direct_nested = excluded(p, "fmtcat.direct_codec_nested_quoted");
-  {
-    char const* f = std::getenv("FMTCAT_FORK");
-    g_fork_mode = f != nullptr && f[0] != '\0' && f[0] != '0';
-  }
+  g_excl_brace_adjacent = excluded(p, "fmtcat.positional_format_misread_as_named");
+  g_reexec_max_cases = param_int(p, "reexec_max", 10000);
+  if (std::getenv("FMTCAT_REEXEC") != nullptr && g_fork_mode && !g_replay_out.empty()) std::atexit(reexec_epilogue);
 
-  for (auto fn : {&shapes_1, &shapes_2, &shapes_3, &shapes_4, &shapes_5, &shapes_6})
+  for (auto fn : {&shapes_1, &shapes_2, &shapes_3, &shapes_4, &shapes_7, &shapes_5, &shapes_6, &shapes_8})
     for (auto const& e : fn()) g_shapes.push_back(e);
   std::string forced = param_str(p, "shape");
   for (size_t k = 0; k < g_shapes.size(); ++k)
@@ -1013,6 +1110,13 @@ void harness_init(Params const& p)
     std::printf("%zu shapes\n", g_shapes.size());
   }
 
+}
+
+// The backend is set up lazily by the first case (or probe) of a process: in fork-per-case mode that is the child,
+// which must itself be the thread that calls init() and poll().
+static void ensure_backend()
+{
+  if (g_worker != nullptr) return;
   g_worker = quill::Backend::acquire_manual_backend_worker(); // once per process
   quill::BackendOptions bo;
   bo.error_notifier = [](std::string const& m) { g_notes.push_back(m); };
@@ -1025,7 +1129,6 @@ void harness_init(Params const& p)
     quill::PatternFormatterOptions{"%(message)", "%H:%M:%S.%Qns", quill::Timezone::GmtTime, false},
     quill::ClockSourceType::System);
 
-  read_cmdline();
   if (!g_fork_mode)
   {
     signal(SIGABRT, on_sigabrt);
@@ -1035,12 +1138,19 @@ void harness_init(Params const& p)
 
 void run_case(Choices& c, Report& r)
 {
+  ensure_backend();
+  ++g_case_counter;
   g_cur_choices = c.p;
   g_cur_n = c.n;
   g_cur_report = &r;
   g_pending.clear();
   g_recorded.clear();
+  g_recorded_level.clear();
   g_notes.clear();
+  // canonical start state of both size caches (a no-op for correct code, which clears them whenever it uses them;
+  // it keeps a case a pure function of its choices even when a mutated tree forgets to)
+  g_cache.clear();
+  quill::detail::get_local_thread_context<quill::FrontendOptions>()->get_conditional_arg_size_cache().clear();
 
   std::vector<std::unique_ptr<std::string>> keep;
   Ctx cx{c, r};
@@ -1083,6 +1193,7 @@ void run_case(Choices& c, Report& r)
 
 bool probe_known_class(std::string const& cls, std::string& what)
 {
+  ensure_backend();
   if (cls == "fmtcat.direct_codec_nested_quoted")
   {
     std::vector<DirectUser> v;
@@ -1094,6 +1205,25 @@ bool probe_known_class(std::string const& cls, std::string& what)
       what = "std::vector<T> with Codec<T> : DirectFormatCodec<T>: call site formats \"" + exp +
         "\", the backend writes \"" + got + "\" (elements decoded as string_view are quoted and escaped)";
       return true;
+    }
+    return false;
+  }
+  if (cls == "fmtcat.positional_format_misread_as_named")
+  {
+    int const seven = 7;
+    char const* fmts[] = {"{}{{a}}", "{}}}{{a}}", "{0}{{a}}{0}"};
+    for (char const* f : fmts)
+    {
+      std::string exp = fmtquill::format(fmtquill::runtime(f), seven);
+      std::string got = probe_message(f, seven);
+      if (got != exp)
+      {
+        what = std::string{"positional format \""} + f + "\" with argument 7: call site formats \"" + exp +
+          "\", the backend writes \"" + got +
+          "\" (MacroMetadata::_contains_named_args skips the character after a placeholder, reads \"{a\" of the escaped "
+          "\"{{a}}\" as a named argument and the statement takes the named-argument path)";
+        return true;
+      }
     }
     return false;
   }
